@@ -193,6 +193,13 @@ type Case struct {
 	HasChain   bool      `json:"has_chain,omitempty"`
 	FeatA      FeatSpec  `json:"feat_a"`
 	FeatB      FeatSpec  `json:"feat_b"`
+	// Cache: the client caches manifests (reg.WithCache, as regctl configures it)
+	Cache bool `json:"cache,omitempty"`
+	// CLI engine (regctl image mod): the target is requested with --create / --replace
+	CLI             bool `json:"cli,omitempty"`
+	CLIBoth         bool `json:"cli_both,omitempty"`          // --create X together with --replace (documented: --replace is ignored)
+	CLIReplaceFirst bool `json:"cli_replace_first,omitempty"` // the target flags stand before the option flags, --replace before --create
+	CLICreateFull   bool `json:"cli_create_full,omitempty"`   // --create carries a full reference (else a tag only)
 }
 
 // ArtSpec is an artifact source.
@@ -507,6 +514,7 @@ func gen(t *rapid.T) Case {
 		}
 	}
 	c.FeatA, c.FeatB = genFeat(t, "feata"), genFeat(t, "featb")
+	c.Cache = rapid.Bool().Draw(t, "cache")
 	if uniformInt(t, "cancel", 20) == 0 {
 		c.CancelAt = rapid.SampledFrom([]int{-1, 1, 2, 3, 5, 8, 13, 21, 34}).Draw(t, "cancelat")
 	}
